@@ -113,12 +113,13 @@ def run_proof(prop, tier):
 # of a property also runs the QUICK tier of the origin's bounded layer and takes over the violations
 # whose clause/witness match — the part of that layer which explores a dimension this property's
 # statement speaks about as well (failing watch=True methods for C05, watch=True methods on copies for
-# C06, update/batch contexts opened inside watchers for C04).  Violations that match a known finding of
+# C06, update/batch contexts opened inside watchers and batches on copies for C04).  Violations that match a known finding of
 # the ORIGIN are that property's business and are dropped here (its own check reports them).
 CARRY = {
     "C05": [("C07", None, r"class=mraise")],
     "C06": [("C17", None, r"calls\[(extra|missing)\]")],
-    "C04": [("C03", r"C03/(queued|event)/.*", r"prog=.*(update|batch)")],
+    "C04": [("C03", r"C03/(queued|event)/.*", r"prog=.*(update|batch)"),
+            ("C17", None, r"post=(batch|upd|trig)\S* .*calls\[(extra|missing)\]")],
 }
 
 
